@@ -800,6 +800,14 @@ func describeShallow(v ssa.Value, d func(ssa.Value) string) string {
 			describeDepthGuard = describeDepthGuard[:len(describeDepthGuard)-1]
 			return t
 		}
+		// a literal whose only use is to be handed to a new helper that calls it in one place: its parameter is
+		// what the helper passes there
+		if a := litSoleDynamicArg(x); a != nil && len(describeDepthGuard) < 4 {
+			describeDepthGuard = append(describeDepthGuard, x.Parent())
+			t := describe(a)
+			describeDepthGuard = describeDepthGuard[:len(describeDepthGuard)-1]
+			return t
+		}
 		for i, p := range refParams(x.Parent()) {
 			if p == x {
 				return fmt.Sprintf("$%d", i)
@@ -827,6 +835,9 @@ func describeShallow(v ssa.Value, d func(ssa.Value) string) string {
 		}
 		return x.Value.ExactString()
 	case *ssa.Global:
+		if old, ok := curRenames.globalAlias[x]; ok {
+			return shortPkg(x.Pkg.Pkg.Path()) + "." + old
+		}
 		return shortPkg(x.Pkg.Pkg.Path()) + "." + x.Name()
 	case *ssa.Function:
 		return "func:" + fname(x)
@@ -1013,6 +1024,12 @@ func describeCall(c *ssa.CallCommon, d func(ssa.Value) string) string {
 	ca := callArgs(c)
 	if !c.IsInvoke() {
 		ca = refArgs(c)
+		// parameters the reference function does not have are not part of the call as the reference spells it
+		if g := staticCallee(c); g != nil {
+			if n, ok := curRenames.paramRefN[g]; ok && n < len(ca) {
+				ca = ca[:n]
+			}
+		}
 	}
 	for _, a := range ca {
 		args = append(args, d(a))
@@ -1177,6 +1194,17 @@ func backward(v ssa.Value, visit func(ssa.Value) bool) bool {
 		case *ssa.TypeAssert:
 			return walk(x.X)
 		case *ssa.Extract:
+			// a result of a helper split out of the function: what the helper returns there
+			if hc, ok := x.Tuple.(*ssa.Call); ok {
+				if g := staticCallee(hc.Common()); g != nil && isNewHelper(g) {
+					for _, rv := range returnValues(g, x.Index) {
+						if walk(rv) {
+							return true
+						}
+					}
+					return false
+				}
+			}
 			return walk(x.Tuple)
 		case *ssa.Slice:
 			return walk(x.X)
@@ -2107,4 +2135,122 @@ func soleMethodOfNewType(prog *ssa.Program, t types.Type) *ssa.Function {
 		return nil
 	}
 	return m
+}
+
+// resolveCaptured: inside a method that stands for a literal (a method value on a carrier struct), a term that
+// starts with a captured-variable reference ^k is rewritten with what the carrier's field k was given.
+func resolveCaptured(term string, host *ssa.Function) string {
+	if !strings.HasPrefix(term, "^") || host == nil {
+		return term
+	}
+	if _, bound := boundSite[host]; !bound {
+		return term
+	}
+	var k int
+	if n, _ := fmt.Sscanf(term, "^%d", &k); n != 1 {
+		return term
+	}
+	b := closureBindings(host)
+	if k >= len(b) || b[k] == "<zero>" {
+		return term
+	}
+	return b[k] + strings.TrimPrefix(term, fmt.Sprintf("^%d", k))
+}
+
+// litSoleDynamicArg: p is a parameter of a function literal that is used only as an argument of a helper new with
+// respect to the reference tree, and that helper calls the corresponding parameter in exactly one place: the
+// argument it passes there (nil otherwise).
+func litSoleDynamicArg(p *ssa.Parameter) ssa.Value {
+	lit := p.Parent()
+	if !haveReference || lit.Parent() == nil {
+		return nil
+	}
+	idx := -1
+	for i, q := range lit.Params {
+		if q == p {
+			idx = i
+		}
+	}
+	var found ssa.Value
+	n := 0
+	for _, b := range lit.Parent().Blocks {
+		for _, ins := range b.Instrs {
+			mc, ok := ins.(*ssa.MakeClosure)
+			if !ok || mc.Fn != ssa.Value(lit) {
+				continue
+			}
+			for _, ref := range *mc.Referrers() {
+				c, ok := ref.(ssa.CallInstruction)
+				if !ok {
+					if _, dbg := ref.(*ssa.DebugRef); dbg {
+						continue
+					}
+					return nil
+				}
+				g := staticCallee(c.Common())
+				if g == nil || !isNewHelper(g) {
+					return nil
+				}
+				for i, a := range c.Common().Args {
+					if a != ssa.Value(mc) || i >= len(g.Params) {
+						continue
+					}
+					for _, gf := range withClosures(g) {
+						for _, gb := range gf.Blocks {
+							for _, gi := range gb.Instrs {
+								d, ok := gi.(ssa.CallInstruction)
+								if !ok {
+									continue
+								}
+								callee := d.Common().Value
+								if ld, isLoad := callee.(*ssa.UnOp); isLoad && ld.Op == token.MUL {
+									callee = ld.X // a captured parameter lives in a cell: the call goes through a load
+								}
+								if fv, isFV := callee.(*ssa.FreeVar); isFV {
+									// the helper's own literal calls it: the free variable bound to the parameter
+									callee = freeVarBinding(fv)
+								}
+								if callee == ssa.Value(g.Params[i]) && idx < len(d.Common().Args) {
+									n++
+									found = d.Common().Args[idx]
+								}
+							}
+						}
+					}
+				}
+			}
+		}
+	}
+	if n == 1 {
+		return found
+	}
+	return nil
+}
+
+// freeVarBinding: the value bound to a free variable where its literal is created (nil when not found).
+func freeVarBinding(fv *ssa.FreeVar) ssa.Value {
+	lit := fv.Parent()
+	if lit.Parent() == nil {
+		return nil
+	}
+	idx := -1
+	for i, f := range lit.FreeVars {
+		if f == fv {
+			idx = i
+		}
+	}
+	for _, b := range lit.Parent().Blocks {
+		for _, ins := range b.Instrs {
+			if mc, ok := ins.(*ssa.MakeClosure); ok && mc.Fn == ssa.Value(lit) && idx < len(mc.Bindings) {
+				v := mc.Bindings[idx]
+				if a, ok := v.(*ssa.Alloc); ok {
+					if w := wholeStore(a); w != nil {
+						return w
+					}
+				}
+				return v
+			}
+		}
+	}
+	return nil
 }
